@@ -219,6 +219,11 @@ def run_property(pid, tier="quick", seed=0, update_ledger=False, verbose=False):
         for a in r["assumed"]:
             assumed.add(a)
         nat = r.get("native")
+        cf = p.get("clause_filter", {}).get(fn)
+        if nat is not None and cf is not None and nat.get("violations"):
+            # this property only claims some clauses of the function's contract
+            keep = [v for v in nat["violations"] if any(v["clause"].split("/", 1)[-1].startswith(pre) or v["clause"].startswith(pre) for pre in cf)]
+            nat = dict(nat, violations=keep, status=("violation" if keep else "ok") if nat.get("status") == "violation" else nat.get("status"))
         if nat is not None:
             natives[fn] = nat
             bounded_results.append({"name": fn, "kind": "bounded-native", "status": nat.get("status"), "cases": nat.get("cases", 0),
@@ -228,7 +233,7 @@ def run_property(pid, tier="quick", seed=0, update_ledger=False, verbose=False):
             if nat is None or nat.get("status") in ("error",):
                 undecided.append(f"{fn}: native check failed to run: {(nat or {}).get('message', '')[:300]}")
             elif nat.get("status") == "violation":
-                for v in nat["violations"][:3]:
+                for v in nat["violations"]:
                     key = (fn, v["clause"])
                     if key in known_ob:
                         expected_refuted.append({"function": fn, "obligation": v["clause"], "finding": known_ob[key]["id"]})
@@ -272,7 +277,7 @@ def run_property(pid, tier="quick", seed=0, update_ledger=False, verbose=False):
                 undecided.append(f"{fn}/{o['name']}: solver unknown/timeout")
         if nat is not None and nat.get("status") == "violation" and not refuted_names:
             # the bounded native run found a failing input although every obligation was discharged
-            for v in nat["violations"][:3]:
+            for v in nat["violations"]:
                 key = (fn, v["clause"])
                 key2 = (fn, "frame/p:" + v["clause"][6:]) if v["clause"].startswith("frame/") else key
                 if key in known_ob or key2 in known_ob:
@@ -320,6 +325,8 @@ def run_property(pid, tier="quick", seed=0, update_ledger=False, verbose=False):
             if missing:
                 undecided.append(f"{fn}: obligations missing relative to the ledger: {missing[:6]}")
     for b in bounded_results:
+        if b.get("kind") == "bounded-native":
+            continue  # handled per function above (known findings, replay inputs)
         if b["status"] == "violation":
             violations.append((b["name"], "bounded", {"model": json.dumps(b.get("witness"))[:3000], "where": b.get("where", ""), "text": b.get("what", ""), "bounded": True}))
         elif b["status"] != "ok":
@@ -395,8 +402,10 @@ def run_property(pid, tier="quick", seed=0, update_ledger=False, verbose=False):
             "dropped_by_extraction": __import__("pyvc.front", fromlist=["DROPPED"]).DROPPED,
             "samples": samples or [{"note": "no discharged obligation to show"}],
             "explanation": explanation, "undecided": undecided, "not_decided": p.get("not_decided", []),
-            "evaluations": max(1, n_obl), "distinct_nontrivial": max(2, len({o for f in names_now.values() for o in f})),
-            "rule": "one evaluation = one generated obligation; distinct = distinct obligation names",
+            "evaluations": max(1, n_obl + n_bounded),
+            "distinct_nontrivial": max(2, len({o for f in names_now.values() for o in f}) + sum(1 for b in bounded_results if b.get("cases", 0) > 0)),
+            "rule": "one evaluation = one generated obligation or one natively executed contract case; distinct = distinct obligation names + functions exercised natively",
+            "native_cases": n_bounded,
         },
         "assumptions": assumptions, "wall_s": round(wall, 2), "violations": sum(1 for l in lines if l.startswith("VIOLATION")),
     }
